@@ -42,4 +42,15 @@ where
     | [], _, acc => acc
     | c :: cs, i, acc => go lk cs (i + 1) (acc.merge c.meta (lk.keyLen i) 1 lk.len)
 
+/-- `traverse_all::<W>()` for an arbitrary `Walk` `W` with `W::leaf() = leafW`, `W::internal(children, lookup) =
+internalW children lookup`: every internal node is presented once, bottom-up, with its children's walks in order -/
+def Schema.walkAll {W : Type} (leafW : W) (internalW : List W → Lookup → W) : Schema → W
+  | .leaf => leafW
+  | .node lk cs => internalW (go cs) lk
+  | .array n c => internalW [c.walkAll leafW internalW] (.homog n)
+where
+  go : List Schema → List W
+    | [] => []
+    | c :: cs => c.walkAll leafW internalW :: go cs
+
 end MiniconfVerif
